@@ -66,6 +66,30 @@ CHECKS = {
    technique='explicit-state BFS over derivation trees of the real handlers with a differential oracle (isolated replay of each logger\'s own chain; call-site equivalence), plus stateless model checking of two concurrent derivers with race detection',
    text='For each handler: all derivation trees of <=5 (thorough 6) loggers over 6 derivation kinds; after every derivation every existing logger is probed and must write byte-for-byte what a logger built alone from a fresh root by replaying its own chain writes, and structurally what a root logger given the With attributes at the call site writes. The aliasing precondition (parent with spare buffer capacity and >=2 children) is counted and must occur. Concurrent part: two goroutines deriving from a shared non-root parent and logging through child, parent and grandchild, all interleavings to the bound.',
    note=S_NOTE),
+ 'C15': dict(engine='vsched + enumeration', cat='model_checking', ref='4 (C15), 2.2',
+   technique='exhaustive enumeration of handler behaviours through the real Mux+Relay judged per log format, plus stateless model checking of 2-3 requests in flight',
+   text='Sequential part: 77 behaviours (11 write patterns x {no panic, panic after writing with 6 value kinds} + panic before writing x 6) x matched/no-route x 2 client address forms x 3 log handlers x 2 thresholds = 1992 requests; no panic escapes, the recorder sees 500 iff the handler panicked before writing, exactly one REQ_BEG/REQ_END (Info) with method, URI, client IP, the id the handler saw and the status the client received, exactly one Error record with the panic value and the same id. Concurrent part: 2 and 3 requests in flight for each log handler, all interleavings to the bound; records pair up by id.',
+   note=S_NOTE + ' Records are decoded by the JSON reader / text tokenizer / positionally (nano).'),
+ 'C16': dict(engine='enumeration', cat='exploration', ref='4 (C16), 2.4',
+   technique='exhaustive enumeration of all strings up to length 5 over the 15-symbol alphabet against a POSIX word-splitting model, and up to length 4 (quick) / 5 (thorough) against the real dash and bash',
+   text='1 628 762 (function, string) pairs through the model (exactly one word, equal to the input, no expansion / substitution / glob / operator / comment / tilde event - except exactly one tilde expansion for ExceptTilde on ~/ inputs) and 220 024 words through dash and bash in batch scripts (one argument equal to the input, or $HOME/rest).',
+   note='Trusted base: the word-splitting model (engine/voracle/shellmodel.go), itself cross-checked against two real shells on the same words; non-interactive shells (history expansion off), HOME containing a space and a quote.'),
+ 'C17': dict(engine='enumeration', cat='exploration', ref='4 (C17), 2.4',
+   technique='exhaustive enumeration of all URL paths up to length 8 over 4 symbols x 12 bases against a lexical containment oracle',
+   text='1 048 668 (base, path) pairs: the result must be the cleaned base or lexically beneath it, and for paths without dot segments equal the plain join.',
+   note='Trusted base: the segment-wise containment oracle; lexical only (no symlinks on disk).'),
+ 'C10': dict(engine='enumeration', cat='exploration', ref='4 (C10), 2.4',
+   technique='exhaustive enumeration of all argument vectors up to length 4 (quick) / 5 (thorough) over 27 tokens against a reference parser of the documented grammar',
+   text='551 881 (quick) argument vectors: error exactly when the grammar says so, never a panic, otherwise identical field values, Args() and ShowUsage().',
+   note='Trusted base: the reference parser (checks/c10/main.go, written from the documented grammar). Only the command line speaks (no CFG_* variables, no -config).'),
+ 'C09': dict(engine='enumeration', cat='exploration', ref='4 (C09), 2.4',
+   technique='exhaustive enumeration of generated configurations (reflect.StructOf) over field kind x nesting x tag syntax x all 16 source subsets x value sets x JSON carrier x cli spelling x second-field subsets',
+   text='61 632 (quick) / 123 264 (thorough) Parse calls, each with its own environment and config file; the field must equal the strconv-parsed value of the highest-priority source mentioning it, the second field its own, and trailing args are preserved.',
+   note='Trusted base: strconv / time.ParseDuration / base64 as value parsers; literal environment names in the harness.'),
+ 'C18': dict(engine='fault enumeration (vos seam)', cat='fault_enumeration', ref='4 (C18), 2.1',
+   technique='exhaustive enumeration of fault positions: every numbered file-system call of each scenario fails in turn (plus calls revealed by a fault, and every pair in thorough), on a real temporary directory and a second real file system',
+   text='111 scenarios (size x destination x alias x parent x source presence, CopyFile and MoveFile, real EXDEV between / and /dev/shm) x every single fault position incl. partial copies = 508 runs (quick); byte-level snapshots before/after decide; the source may be removed only once the destination is complete (checked at the remove call).',
+   note='Trusted base: the vos seam (engine/shim/vos) mounted over os/io calls of util/osutil by the instrumenter; real file systems.'),
 }
 
 NA_REASON = 'check not built yet (work in progress; see DESIGN.md section 4)'
